@@ -208,6 +208,10 @@ def stream_real(rng, n, shim):
                 for grp in s.optimizer.param_groups:
                     grp['lr'] = grp['lr'] * 0.37
                 ctx['lr_changed_after_construction'] = True
+            if rng.random() < 0.4:        # networks put into evaluation mode by the user before saving (the mode is part of the module's state)
+                for n_ in s.nets:
+                    n_.eval()
+                ctx['nets_in_eval_mode'] = True
             cur = s
             for cyc in range(rng.randint(1, 2) if shim else 1):
                 before = snapshot(cur)
@@ -283,6 +287,12 @@ def stream_real(rng, n, shim):
                     bad.append(dict(ctx, violated='the optimiser of the loaded solver does not hold exactly the parameters of the loaded networks '
                                     '(training it would move other tensors)', parameters_of_networks=len(net_ids), held_by_optimiser=len(opt_ids & net_ids),
                                     foreign_tensors=len(opt_ids - net_ids)))
+                if [bool(n_.training) for n_ in loaded.nets] != [bool(n_.training) for n_ in cur.nets] or \
+                        (cur.best_nets is not None and [bool(n_.training) for n_ in loaded.best_nets] != [bool(n_.training) for n_ in cur.best_nets]):
+                    bad.append(dict(ctx, violated='training / evaluation mode of the loaded networks differs from the saved ones (mode-dependent layers would evaluate differently)',
+                                    saved=[bool(n_.training) for n_ in cur.nets], loaded=[bool(n_.training) for n_ in loaded.nets]))
+                if [str(p_.dtype) for n_ in loaded.nets for p_ in n_.parameters()] != [str(p_.dtype) for n_ in cur.nets for p_ in n_.parameters()]:
+                    bad.append(dict(ctx, violated='precision of the loaded networks differs from the saved ones'))
                 if type(loaded) is not type(cur):
                     bad.append(dict(ctx, violated='loaded solver is of a different kind', got=type(loaded).__name__))
                 skw = dict(no_reshape=True) if 'ensemble' in kind else {}      # a 2-column unknown cannot take the shape of the coordinate
@@ -406,6 +416,35 @@ def float32_session_check(rng):
                             lowest=l.lowest_loss, minimum=min(vl)))
     except Exception as e:
         bad.append(dict(kind='Solver1D in a float32 session', violated='save / load raised', error=f'{type(e).__name__}: {e}'))
+    finally:
+        torch.set_default_dtype(prev)
+        dill.settings['byref'] = False
+        if os.path.exists(path):
+            os.remove(path)
+    # saved in a double-precision session, loaded while the session default is single precision: the solutions evaluate identically
+    dill.settings['byref'] = True
+    try:
+        torch.set_default_dtype(torch.float64)
+        with warnings.catch_warnings():
+            warnings.simplefilter('ignore')
+            s, coords = make_real('Solver1D', rng, 'SGD', n_valid=1)
+            s.fit(2, tqdm_file=None)
+            s.save(path=path)
+            want = [s.get_solution(best=b)(*coords).clone() for b in (False, True)]
+            torch.set_default_dtype(torch.float32)
+            with contextlib.redirect_stdout(io.StringIO()):
+                l = type(s).load(path=path)
+            for b, w in zip((False, True), want):
+                try:
+                    got = l.get_solution(best=b)(*coords)
+                    same = got.dtype == w.dtype and torch.equal(got, w)
+                except Exception as e:
+                    same, got = False, f'{type(e).__name__}: {e}'
+                if not same:
+                    bad.append(dict(kind='Solver1D saved in a float64 session, loaded in a float32 session', violated=f'loaded {"best" if b else "latest"} solution '
+                                    'does not evaluate identically on the original (float64) coordinates', got=str(got)[:200]))
+    except Exception as e:
+        bad.append(dict(kind='Solver1D saved in a float64 session, loaded in a float32 session', violated='save / load raised', error=f'{type(e).__name__}: {e}'))
     finally:
         torch.set_default_dtype(prev)
         dill.settings['byref'] = False
